@@ -31,12 +31,12 @@ fn cuts(len: usize, marks: &[usize], tier: &str) -> Vec<usize> {
 }
 
 // ------------------------------------------------------------------------------------------------------------ data sets
-fn refseq() -> Vec<u8> { (0..3000).map(|i| b"ACGT"[((i as u64).wrapping_mul(2654435761) >> 7) as usize % 4]).collect() }
-fn repo() -> noodles_fasta::Repository {
+pub(crate) fn refseq() -> Vec<u8> { (0..3000).map(|i| b"ACGT"[((i as u64).wrapping_mul(2654435761) >> 7) as usize % 4]).collect() }
+pub(crate) fn repo() -> noodles_fasta::Repository {
     let r = refseq();
     noodles_fasta::Repository::new(vec![noodles_fasta::Record::new(noodles_fasta::record::Definition::new("sq0", None), noodles_fasta::record::Sequence::from(r.clone())), noodles_fasta::Record::new(noodles_fasta::record::Definition::new("sq1", None), noodles_fasta::record::Sequence::from(r))])
 }
-fn alignment_set(n: usize) -> Result<(sam::Header, Vec<sam::alignment::RecordBuf>), String> {
+pub(crate) fn alignment_set(n: usize) -> Result<(sam::Header, Vec<sam::alignment::RecordBuf>), String> {
     let r = refseq();
     let header: sam::Header = "@HD\tVN:1.6\tSO:coordinate\n@SQ\tSN:sq0\tLN:3000\n@SQ\tSN:sq1\tLN:3000\n@RG\tID:rg0\n@CO\tcut me\n".parse().map_err(|e| format!("header: {e}"))?;
     let mut body = String::new();
@@ -51,7 +51,7 @@ fn alignment_set(n: usize) -> Result<(sam::Header, Vec<sam::alignment::RecordBuf
     let recs = sam::io::Reader::new(body.as_bytes()).record_bufs(&header).collect::<Result<Vec<_>, _>>().map_err(|e| format!("sam: {e}"))?;
     Ok((header, recs))
 }
-fn variant_set(n: usize) -> Result<(vcf::Header, Vec<vcf::variant::RecordBuf>), String> {
+pub(crate) fn variant_set(n: usize) -> Result<(vcf::Header, Vec<vcf::variant::RecordBuf>), String> {
     let mut t = String::from("##fileformat=VCFv4.3\n##INFO=<ID=DP,Number=1,Type=Integer,Description=\"d\">\n##INFO=<ID=XS,Number=1,Type=String,Description=\"s\">\n##FILTER=<ID=PASS,Description=\"All filters passed\">\n##FORMAT=<ID=GT,Number=1,Type=String,Description=\"g\">\n##FORMAT=<ID=XA,Number=.,Type=Integer,Description=\"a\">\n##contig=<ID=sq0,length=3000>\n##contig=<ID=sq1,length=3000>\n#CHROM\tPOS\tID\tREF\tALT\tQUAL\tFILTER\tINFO\tFORMAT\ts0\ts1\n");
     for i in 0..n { t.push_str(&format!("{}\t{}\trs{i}\tA\tC\t{}\tPASS\tDP={};XS=v{i}\tGT:XA\t0|1:{},{}\t1/1:{}\n", if i < n / 2 { "sq0" } else { "sq1" }, 1 + (i * 7) % 2900, 10 + i % 50, i * 13, i, i + 1, i * 1000)); }
     let mut rd = vcf::io::Reader::new(t.as_bytes()); let h = rd.read_header().map_err(|e| format!("vcf header: {e}"))?;
@@ -61,7 +61,7 @@ fn variant_set(n: usize) -> Result<(vcf::Header, Vec<vcf::variant::RecordBuf>), 
 
 // ------------------------------------------------------------------------------------------------------------ writing
 /// returns (file, offsets in the file right after the header and after each record) — the marks are exact only for raw streams
-fn write_alignment(fmt: alignment::io::Format, cm: Option<alignment::io::CompressionMethod>, h: &sam::Header, recs: &[sam::alignment::RecordBuf]) -> Result<(Vec<u8>, Vec<usize>), String> {
+pub(crate) fn write_alignment(fmt: alignment::io::Format, cm: Option<alignment::io::CompressionMethod>, h: &sam::Header, recs: &[sam::alignment::RecordBuf]) -> Result<(Vec<u8>, Vec<usize>), String> {
     let buf = Rc::new(RefCell::new(Vec::new())); let mut marks = Vec::new();
     { let mut w = alignment::io::writer::Builder::default().set_format(fmt).set_compression_method(cm).set_reference_sequence_repository(repo()).build_from_writer(Sink(buf.clone())).map_err(|e| format!("build writer: {e}"))?;
       w.write_header(h).map_err(|e| format!("write_header: {e}"))?; marks.push(buf.borrow().len());
@@ -69,7 +69,7 @@ fn write_alignment(fmt: alignment::io::Format, cm: Option<alignment::io::Compres
       w.finish(h).map_err(|e| format!("finish: {e}"))?; }
     let v = buf.borrow().clone(); Ok((v, marks))
 }
-fn write_variant(fmt: variant::io::Format, cm: Option<variant::io::CompressionMethod>, h: &vcf::Header, recs: &[vcf::variant::RecordBuf]) -> Result<(Vec<u8>, Vec<usize>), String> {
+pub(crate) fn write_variant(fmt: variant::io::Format, cm: Option<variant::io::CompressionMethod>, h: &vcf::Header, recs: &[vcf::variant::RecordBuf]) -> Result<(Vec<u8>, Vec<usize>), String> {
     let buf = Rc::new(RefCell::new(Vec::new())); let mut marks = Vec::new();
     { let mut w = variant::io::writer::Builder::default().set_format(fmt).set_compression_method(cm).build_from_writer(Sink(buf.clone()));
       w.write_header(h).map_err(|e| format!("write_header: {e}"))?; marks.push(buf.borrow().len());
